@@ -226,6 +226,11 @@ func Long(n int) string {
 	sb.WriteString("SELECT c0")
 	for i := 1; sb.Len() < n*3 && i < n/2; i++ {
 		fmt.Fprintf(&sb, ", c%d", i)
+		if i%12 == 0 {
+			// the tokenizer computes a token's column by scanning its line: one
+			// 60 KB line would make every tokenization quadratic
+			sb.WriteString("\n ")
+		}
 	}
 	sb.WriteString(" FROM t")
 	return sb.String()
